@@ -253,7 +253,7 @@ def _run_property(pid, tier, seed, args):
             w = witness.search(pid)
             if w is None:
                 raise
-            o = [{'name': 'verus:%s:<unreachable: %s>' % (unit['tmpl'].replace('.rs.tmpl', ''), str(e)[:120]), 'engine': 'native/differential',
+            o = [{'name': 'verus:%s:<unreachable>' % unit['tmpl'].replace('.rs.tmpl', ''), 'engine': 'native/differential',
                   'ok': False, 'time_ms': 0, 'bounded': False, 'witness': w,
                   'detail': ['verifier could not be applied (%s); native differential search found a failing input: %s expected %s got %s'
                              % (str(e)[:200], w['input'], w['expected'], w['actual'])]}]
